@@ -11,21 +11,6 @@ set_option linter.unusedVariables false
 namespace SoyVerif.Lemmas.ParserSafe
 open SoyVerif SoyVerif.Model SoyVerif.Model.Parser
 
-theorem real_of_eq {it : Item} {t : ItemType} (h : it.typ = t) (ht : t ≠ .tInvalid) : real it = 1 := by
-  unfold real; rw [if_neg]; rw [h]; exact ht
-
-theorem real_of_beq {it : Item} {t : ItemType} (h : (it.typ == t) = true) (ht : t ≠ .tInvalid) : real it = 1 :=
-  real_of_eq (by simpa using h) ht
-
-theorem real_of_unary {it : Item} (h : isUnaryOp it.typ = true) : real it = 1 := by
-  unfold real; rw [if_neg]; intro e; rw [e] at h; revert h; decide
-
-theorem real_of_binary {it : Item} (h : isBinaryOp it.typ = true) : real it = 1 := by
-  unfold real; rw [if_neg]; intro e; rw [e] at h; revert h; decide
-
-theorem real_of_value {it : Item} (h : isValue it.typ = true) : real it = 1 := by
-  unfold real; rw [if_neg]; intro e; rw [e] at h; revert h; decide
-
 theorem binOpOf_isSome {t : ItemType} (h : isBinaryOp t = true) : binOpOf t ≠ none := by
   revert h; cases t <;> decide
 
@@ -54,7 +39,7 @@ theorem val_ne2b {AP : Prop} {it : Item} {b : UInt8} {r : Bytes} (h : AP ∨ WFI
   · have := h.2 ht; rw [hv, he] at this; simp at this
 
 section
-variable (pf : Bytes → Option UInt64) (AP EL : Prop) (S : Item → Prop)
+variable (pf : Bytes → Option UInt64) (AP : Prop) (EL : Lvl) (S : Item → Prop)
 
 /-- post-condition shared by the expression functions: invariant kept, no real token
     "un-consumed"; `d` = real tokens consumed at least -/
@@ -63,25 +48,25 @@ def EPost (st : PState) (d : Nat) {α : Type} : α → PState → Prop :=
 
 /-- the specifications of all expression functions at one fuel level -/
 structure ExprSpecs (fuel : Nat) : Prop where
-  parseExpr : ∀ prec st, Inv EL S st → 8 * mu st + 10 ≤ fuel → PSafe AP S (parseExpr pf fuel prec) st (EPost EL S st 1)
-  exprLoop : ∀ prec n st, Inv EL S st → 8 * mu st + 17 ≤ fuel → PSafe AP S (exprLoop pf fuel prec n) st (EPost EL S st 0)
-  firstTerm : ∀ st, Inv EL S st → 8 * mu st + 9 ≤ fuel → PSafe AP S (parseExprFirstTerm pf fuel) st (EPost EL S st 1)
-  newValueNode : ∀ tok st, S tok → isValue tok.typ = true → Inv EL S st → 8 * mu st + 16 ≤ fuel → PSafe AP S (newValueNode pf fuel tok) st (EPost EL S st 0)
-  parseDataRef : ∀ st, Inv EL S st → 8 * mu st + 15 ≤ fuel → PSafe AP S (parseDataRef pf fuel) st (EPost EL S st 0)
-  parseListOrMap : ∀ tok st, S tok → Inv EL S st → 8 * mu st + 15 ≤ fuel → PSafe AP S (parseListOrMap pf fuel tok) st (EPost EL S st 0)
-  parseListItems : ∀ st, Inv EL S st → 8 * mu st + 12 ≤ fuel → PSafe AP S (parseListItems pf fuel) st (EPost EL S st 0)
-  parseMapItems : ∀ k m st, Inv EL S st → 8 * mu st + 12 ≤ fuel → PSafe AP S (parseMapItems pf fuel k m) st (EPost EL S st 0)
-  parseTernary : ∀ c st, Inv EL S st → 8 * mu st + 12 ≤ fuel → PSafe AP S (parseTernary pf fuel c) st (EPost EL S st 0)
-  newGlobalNode : ∀ p n nxt st, S nxt → Inv EL S st → st.peekCount ≤ 1 → top st = nxt → 8 * (mu st + real nxt) + 8 ≤ fuel →
-    PSafe AP S (newGlobalNode pf fuel p n nxt) st (fun _ st' => Inv EL S st' ∧ mu st' ≤ mu st + real nxt)
-  newFunctionNode : ∀ tok st, Inv EL S st → 8 * mu st + 13 ≤ fuel → PSafe AP S (newFunctionNode pf fuel tok) st (EPost EL S st 0)
-  parseFuncArgs : ∀ st, Inv EL S st → 8 * mu st + 12 ≤ fuel → PSafe AP S (parseFuncArgs pf fuel) st (EPost EL S st 0)
+  parseExpr : ∀ prec st, Inv EL S st → 8 * mu st + 10 ≤ fuel → PSafe AP EL S (parseExpr pf fuel prec) st (EPost EL S st 1)
+  exprLoop : ∀ prec n st, Inv EL S st → 8 * mu st + 17 ≤ fuel → PSafe AP EL S (exprLoop pf fuel prec n) st (EPost EL S st 0)
+  firstTerm : ∀ st, Inv EL S st → 8 * mu st + 9 ≤ fuel → PSafe AP EL S (parseExprFirstTerm pf fuel) st (EPost EL S st 1)
+  newValueNode : ∀ tok st, S tok → isValue tok.typ = true → Inv EL S st → 8 * mu st + 16 ≤ fuel → PSafe AP EL S (newValueNode pf fuel tok) st (EPost EL S st 0)
+  parseDataRef : ∀ st, Inv EL S st → 8 * mu st + 15 ≤ fuel → PSafe AP EL S (parseDataRef pf fuel) st (EPost EL S st 0)
+  parseListOrMap : ∀ tok st, S tok → Inv EL S st → 8 * mu st + 15 ≤ fuel → PSafe AP EL S (parseListOrMap pf fuel tok) st (EPost EL S st 0)
+  parseListItems : ∀ st, Inv EL S st → 8 * mu st + 12 ≤ fuel → PSafe AP EL S (parseListItems pf fuel) st (EPost EL S st 0)
+  parseMapItems : ∀ k m st, Inv EL S st → 8 * mu st + 12 ≤ fuel → PSafe AP EL S (parseMapItems pf fuel k m) st (EPost EL S st 0)
+  parseTernary : ∀ c st, Inv EL S st → 8 * mu st + 12 ≤ fuel → PSafe AP EL S (parseTernary pf fuel c) st (EPost EL S st 0)
+  newGlobalNode : ∀ p n nxt st, S nxt → InvW EL S st → st.peekCount ≤ 1 → top st = nxt → 8 * (mu st + real nxt) + 8 ≤ fuel →
+    PSafe AP EL S (newGlobalNode pf fuel p n nxt) st (fun _ st' => Inv EL S st' ∧ mu st' ≤ mu st + real nxt)
+  newFunctionNode : ∀ tok st, Inv EL S st → 8 * mu st + 13 ≤ fuel → PSafe AP EL S (newFunctionNode pf fuel tok) st (EPost EL S st 0)
+  parseFuncArgs : ∀ st, Inv EL S st → 8 * mu st + 12 ≤ fuel → PSafe AP EL S (parseFuncArgs pf fuel) st (EPost EL S st 0)
 
 variable (hz : S Item.zero) (hwf : ∀ it, S it → AP ∨ WFItem it)
 include hz hwf
 
 theorem parseExpr_ok {fuel : Nat} (ih : ExprSpecs pf AP EL S fuel) (prec : Nat) (st : PState) (hi : Inv EL S st)
-    (hf : 8 * mu st + 10 ≤ fuel + 1) : PSafe AP S (Parser.parseExpr pf (fuel + 1) prec) st (EPost EL S st 1) := by
+    (hf : 8 * mu st + 10 ≤ fuel + 1) : PSafe AP EL S (Parser.parseExpr pf (fuel + 1) prec) st (EPost EL S st 1) := by
   unfold Parser.parseExpr
   apply PSafe.bind
   apply (ih.firstTerm st hi (by omega)).mono
@@ -91,7 +76,7 @@ theorem parseExpr_ok {fuel : Nat} (ih : ExprSpecs pf AP EL S fuel) (prec : Nat) 
   exact ⟨hi2, by omega⟩
 
 theorem exprLoop_ok {fuel : Nat} (ih : ExprSpecs pf AP EL S fuel) (prec : Nat) (n : Expr) (st : PState) (hi : Inv EL S st)
-    (hf : 8 * mu st + 17 ≤ fuel + 1) : PSafe AP S (Parser.exprLoop pf (fuel + 1) prec n) st (EPost EL S st 0) := by
+    (hf : 8 * mu st + 17 ≤ fuel + 1) : PSafe AP EL S (Parser.exprLoop pf (fuel + 1) prec n) st (EPost EL S st 0) := by
   unfold Parser.exprLoop
   apply PSafe.bind
   apply next_safe hz hi
@@ -99,7 +84,9 @@ theorem exprLoop_ok {fuel : Nat} (ih : ExprSpecs pf AP EL S fuel) (prec : Nat) (
   try dsimp only
   split
   · split
-    · apply (ih.parseTernary n st1 hi1 (by omega)).mono
+    · rename_i hq
+      have hr : real tok = 1 := real_of_beq (by simp only [Bool.and_eq_true] at hq; exact hq.2) (by decide)
+      apply (ih.parseTernary n st1 (upw% hi1) (by omega)).mono
       intro e st2 ⟨hi2, hm2⟩
       exact ⟨hi2, by omega⟩
     · apply PSafe.bind
@@ -113,7 +100,7 @@ theorem exprLoop_ok {fuel : Nat} (ih : ExprSpecs pf AP EL S fuel) (prec : Nat) (
       exact hb.1
     have hr := real_of_binary hb'
     apply PSafe.bind
-    apply (ih.parseExpr _ st1 hi1 (by omega)).mono
+    apply (ih.parseExpr _ st1 (upw% hi1) (by omega)).mono
     intro rhs st2 ⟨hi2, hm2⟩
     split
     · apply (ih.exprLoop prec _ st2 hi2 (by omega)).mono
@@ -124,7 +111,7 @@ theorem exprLoop_ok {fuel : Nat} (ih : ExprSpecs pf AP EL S fuel) (prec : Nat) (
 
 
 theorem firstTerm_ok {fuel : Nat} (ih : ExprSpecs pf AP EL S fuel) (st : PState) (hi : Inv EL S st)
-    (hf : 8 * mu st + 9 ≤ fuel + 1) : PSafe AP S (Parser.parseExprFirstTerm pf (fuel + 1)) st (EPost EL S st 1) := by
+    (hf : 8 * mu st + 9 ≤ fuel + 1) : PSafe AP EL S (Parser.parseExprFirstTerm pf (fuel + 1)) st (EPost EL S st 1) := by
   unfold Parser.parseExprFirstTerm
   apply PSafe.bind
   apply next_safe hz hi
@@ -134,7 +121,7 @@ theorem firstTerm_ok {fuel : Nat} (ih : ExprSpecs pf AP EL S fuel) (st : PState)
   · rename_i hu
     have hr := real_of_unary hu
     apply PSafe.bind
-    apply (ih.parseExpr _ st1 hi1 (by omega)).mono
+    apply (ih.parseExpr _ st1 (upw% hi1) (by omega)).mono
     intro arg st2 ⟨hi2, hm2⟩
     split
     · exact PSafe.pure ⟨hi2, by omega⟩
@@ -146,23 +133,23 @@ theorem firstTerm_ok {fuel : Nat} (ih : ExprSpecs pf AP EL S fuel) (st : PState)
   · rename_i hp
     have hr := real_of_beq hp (by decide)
     apply PSafe.bind
-    apply (ih.parseExpr _ st1 hi1 (by omega)).mono
+    apply (ih.parseExpr _ st1 (upw% hi1) (by omega)).mono
     intro n st2 ⟨hi2, hm2⟩
     apply PSafe.bind
-    apply expect_safe hz hi2
+    apply expect_safe hz hi2 (by decide)
     intro it st3 hi3 hs3 _ _ hm3 _
     exact PSafe.pure ⟨hi3, by omega⟩
   split
   · rename_i hv
     have hr := real_of_value hv
-    apply (ih.newValueNode tok st1 hs1 hv hi1 (by omega)).mono
+    apply (ih.newValueNode tok st1 hs1 hv (upw% hi1) (by omega)).mono
     intro e st2 ⟨hi2, hm2⟩
     exact ⟨hi2, by omega⟩
   · exact unexpected_safe hi1 hs1
 
 theorem newValueNode_ok {fuel : Nat} (ih : ExprSpecs pf AP EL S fuel) (tok : Item) (st : PState) (hst : S tok)
     (hv : isValue tok.typ = true) (hi : Inv EL S st) (hf : 8 * mu st + 16 ≤ fuel + 1) :
-    PSafe AP S (Parser.newValueNode pf (fuel + 1) tok) st (EPost EL S st 0) := by
+    PSafe AP EL S (Parser.newValueNode pf (fuel + 1) tok) st (EPost EL S st 0) := by
   unfold Parser.newValueNode
   split
   · exact PSafe.pure ⟨hi, by omega⟩
@@ -198,7 +185,7 @@ theorem newValueNode_ok {fuel : Nat} (ih : ExprSpecs pf AP EL S fuel) (tok : Ite
     · rename_i hp
       have hp' : nxt.typ = .tLeftParen := by simpa using hp
       have hr := real_of_eq hp' (by decide)
-      apply (ih.newFunctionNode tok st1 hi1 (by omega)).mono
+      apply (ih.newFunctionNode tok st1 (upw% hi1) (by omega)).mono
       intro e st2 ⟨hi2, hm2⟩
       exact ⟨hi2, by omega⟩
   · exfalso
@@ -207,7 +194,7 @@ theorem newValueNode_ok {fuel : Nat} (ih : ExprSpecs pf AP EL S fuel) (tok : Ite
     cases tok.typ <;> simp [isValue]
 
 theorem parseDataRef_ok {fuel : Nat} (ih : ExprSpecs pf AP EL S fuel) (st : PState) (hi : Inv EL S st)
-    (hf : 8 * mu st + 15 ≤ fuel + 1) : PSafe AP S (Parser.parseDataRef pf (fuel + 1)) st (EPost EL S st 0) := by
+    (hf : 8 * mu st + 15 ≤ fuel + 1) : PSafe AP EL S (Parser.parseDataRef pf (fuel + 1)) st (EPost EL S st 0) := by
   unfold Parser.parseDataRef
   apply PSafe.bind
   apply next_safe hz hi
@@ -219,14 +206,14 @@ theorem parseDataRef_ok {fuel : Nat} (ih : ExprSpecs pf AP EL S fuel) (st : PSta
     apply PSafe.bind; apply tail1_safe (val_ne2a (hwf tok hs1) (Or.inl ht)); intro b1 r1 hv1
     apply PSafe.bind; apply tail1_safe (val_ne2b (hwf tok hs1) (Or.inl ht) hv1); intro _ k _
     apply PSafe.bind
-    apply (ih.parseDataRef st1 hi1 (by omega)).mono
+    apply (ih.parseDataRef st1 (upw% hi1) (by omega)).mono
     intro r st2 ⟨hi2, hm2⟩
     exact PSafe.pure ⟨hi2, by omega⟩
   · rename_i ht
     have hr := real_of_eq ht (by decide)
     apply PSafe.bind; apply tail1_safe (val_ne1 (hwf tok hs1) (Or.inr (Or.inl ht))); intro _ k _
     apply PSafe.bind
-    apply (ih.parseDataRef st1 hi1 (by omega)).mono
+    apply (ih.parseDataRef st1 (upw% hi1) (by omega)).mono
     intro r st2 ⟨hi2, hm2⟩
     exact PSafe.pure ⟨hi2, by omega⟩
   · rename_i ht
@@ -235,7 +222,7 @@ theorem parseDataRef_ok {fuel : Nat} (ih : ExprSpecs pf AP EL S fuel) (st : PSta
     apply PSafe.bind; apply tail1_safe (val_ne2b (hwf tok hs1) (Or.inr ht) hv1); intro _ d _
     split
     · apply PSafe.bind
-      apply (ih.parseDataRef st1 hi1 (by omega)).mono
+      apply (ih.parseDataRef st1 (upw% hi1) (by omega)).mono
       intro r st2 ⟨hi2, hm2⟩
       exact PSafe.pure ⟨hi2, by omega⟩
     · exact errorf_safe hi1
@@ -244,17 +231,17 @@ theorem parseDataRef_ok {fuel : Nat} (ih : ExprSpecs pf AP EL S fuel) (st : PSta
     apply PSafe.bind; apply tail1_safe (val_ne1 (hwf tok hs1) (Or.inr (Or.inr ht))); intro _ d _
     split
     · apply PSafe.bind
-      apply (ih.parseDataRef st1 hi1 (by omega)).mono
+      apply (ih.parseDataRef st1 (upw% hi1) (by omega)).mono
       intro r st2 ⟨hi2, hm2⟩
       exact PSafe.pure ⟨hi2, by omega⟩
     · exact errorf_safe hi1
   · rename_i ht
     have hr := real_of_eq ht (by decide)
     apply PSafe.bind
-    apply (ih.parseExpr _ st1 hi1 (by omega)).mono
+    apply (ih.parseExpr _ st1 (upw% hi1) (by omega)).mono
     intro e st2 ⟨hi2, hm2⟩
     apply PSafe.bind
-    apply expect_safe hz hi2
+    apply expect_safe hz hi2 (by decide)
     intro it st3 hi3 hs3 _ _ hm3 _
     apply PSafe.bind
     apply (ih.parseDataRef st3 hi3 (by omega)).mono
@@ -263,10 +250,10 @@ theorem parseDataRef_ok {fuel : Nat} (ih : ExprSpecs pf AP EL S fuel) (st : PSta
   · rename_i ht
     have hr := real_of_eq ht (by decide)
     apply PSafe.bind
-    apply (ih.parseExpr _ st1 hi1 (by omega)).mono
+    apply (ih.parseExpr _ st1 (upw% hi1) (by omega)).mono
     intro e st2 ⟨hi2, hm2⟩
     apply PSafe.bind
-    apply expect_safe hz hi2
+    apply expect_safe hz hi2 (by decide)
     intro it st3 hi3 hs3 _ _ hm3 _
     apply PSafe.bind
     apply (ih.parseDataRef st3 hi3 (by omega)).mono
@@ -280,7 +267,7 @@ theorem parseDataRef_ok {fuel : Nat} (ih : ExprSpecs pf AP EL S fuel) (st : PSta
 
 theorem parseListOrMap_ok {fuel : Nat} (ih : ExprSpecs pf AP EL S fuel) (token : Item) (st : PState) (hst : S token)
     (hi : Inv EL S st) (hf : 8 * mu st + 15 ≤ fuel + 1) :
-    PSafe AP S (Parser.parseListOrMap pf (fuel + 1) token) st (EPost EL S st 0) := by
+    PSafe AP EL S (Parser.parseListOrMap pf (fuel + 1) token) st (EPost EL S st 0) := by
   unfold Parser.parseListOrMap
   apply PSafe.bind
   apply next_safe hz hi
@@ -288,11 +275,11 @@ theorem parseListOrMap_ok {fuel : Nat} (ih : ExprSpecs pf AP EL S fuel) (token :
   try dsimp only
   split
   · apply PSafe.bind
-    apply expect_safe hz hi1
+    apply expect_safe hz (upw% hi1) (by decide)
     intro it st2 hi2 _ _ _ hm2 _
     exact PSafe.pure ⟨hi2, by omega⟩
   split
-  · exact PSafe.pure ⟨hi1, by omega⟩
+  · exact PSafe.pure ⟨(upw% hi1), by omega⟩
   · apply PSafe.bind
     apply backup_safe hi1 (by have := hi.1; omega)
     intro st2 hi2 hm2 _
@@ -309,7 +296,7 @@ theorem parseListOrMap_ok {fuel : Nat} (ih : ExprSpecs pf AP EL S fuel) (token :
       have hr := real_of_beq hc (by decide)
       split
       · apply PSafe.bind
-        apply (ih.parseMapItems _ _ st4 hi4 (by omega)).mono
+        apply (ih.parseMapItems _ _ st4 (upw% hi4) (by omega)).mono
         intro items st5 ⟨hi5, hm5⟩
         exact PSafe.pure ⟨hi5, by omega⟩
       · exact errorf_safe hi4
@@ -317,25 +304,27 @@ theorem parseListOrMap_ok {fuel : Nat} (ih : ExprSpecs pf AP EL S fuel) (token :
     · rename_i hc
       have hr := real_of_beq hc (by decide)
       apply PSafe.bind
-      apply (ih.parseListItems st4 hi4 (by omega)).mono
+      apply (ih.parseListItems st4 (upw% hi4) (by omega)).mono
       intro items st5 ⟨hi5, hm5⟩
       exact PSafe.pure ⟨hi5, by omega⟩
     split
-    · exact PSafe.pure ⟨hi4, by omega⟩
+    · exact PSafe.pure ⟨(upw% hi4), by omega⟩
     · exact unexpected_safe hi4 hs4
 
 theorem parseListItems_ok {fuel : Nat} (ih : ExprSpecs pf AP EL S fuel) (st : PState)
     (hi : Inv EL S st) (hf : 8 * mu st + 12 ≤ fuel + 1) :
-    PSafe AP S (Parser.parseListItems pf (fuel + 1)) st (EPost EL S st 0) := by
+    PSafe AP EL S (Parser.parseListItems pf (fuel + 1)) st (EPost EL S st 0) := by
   unfold Parser.parseListItems
   apply PSafe.bind
   apply peek_safe hz hi
   intro pk st0 hi0 hs0 hm0 hd0 _
   split
-  · apply PSafe.bind
+  · rename_i hb
+    apply PSafe.bind
     apply next_safe hz hi0
-    intro t st1 hi1 hs1 _ _ hm1 _
-    exact PSafe.pure ⟨hi1, by omega⟩
+    intro t st1 hi1 hs1 _ ht1 hm1 he1
+    have hr : real t = 1 := by rw [he1 pk hd0]; exact real_of_beq hb (by decide)
+    exact PSafe.pure ⟨(upw% hi1), by omega⟩
   · apply PSafe.bind
     apply (ih.parseExpr _ st0 hi0 (by omega)).mono
     intro e st1 ⟨hi1, hm1⟩
@@ -344,17 +333,17 @@ theorem parseListItems_ok {fuel : Nat} (ih : ExprSpecs pf AP EL S fuel) (st : PS
     intro nxt st2 hi2 hs2 hpc2 ht2 hm2 _
     try dsimp only
     split
-    · exact PSafe.pure ⟨hi2, by omega⟩
+    · exact PSafe.pure ⟨(upw% hi2), by omega⟩
     split
     · exact unexpected_safe hi2 hs2
     · apply PSafe.bind
-      apply (ih.parseListItems st2 hi2 (by omega)).mono
+      apply (ih.parseListItems st2 (upw% hi2) (by omega)).mono
       intro r st3 ⟨hi3, hm3⟩
       exact PSafe.pure ⟨hi3, by omega⟩
 
 theorem parseMapItems_ok {fuel : Nat} (ih : ExprSpecs pf AP EL S fuel) (key : Bytes) (items : MapItems) (st : PState)
     (hi : Inv EL S st) (hf : 8 * mu st + 12 ≤ fuel + 1) :
-    PSafe AP S (Parser.parseMapItems pf (fuel + 1) key items) st (EPost EL S st 0) := by
+    PSafe AP EL S (Parser.parseMapItems pf (fuel + 1) key items) st (EPost EL S st 0) := by
   unfold Parser.parseMapItems
   apply PSafe.bind
   apply (ih.parseExpr _ st hi (by omega)).mono
@@ -365,23 +354,25 @@ theorem parseMapItems_ok {fuel : Nat} (ih : ExprSpecs pf AP EL S fuel) (key : By
   intro nxt st2 hi2 hs2 hpc2 ht2 hm2 _
   try dsimp only
   split
-  · exact PSafe.pure ⟨hi2, by omega⟩
+  · exact PSafe.pure ⟨(upw% hi2), by omega⟩
   split
   · exact unexpected_safe hi2 hs2
   · apply PSafe.bind
-    apply peek_safe hz hi2
+    apply peek_safe hz (upw% hi2)
     intro pk st2' hi2' hs2' hm2' hd2' _
     split
-    · apply PSafe.bind
+    · rename_i hb
+      apply PSafe.bind
       apply next_safe hz hi2'
-      intro t st3 hi3 hs3 _ _ hm3 _
-      exact PSafe.pure ⟨hi3, by omega⟩
+      intro t st3 hi3 hs3 _ ht3 hm3 he3
+      have hr : real t = 1 := by rw [he3 pk hd2']; exact real_of_beq hb (by decide)
+      exact PSafe.pure ⟨(upw% hi3), by omega⟩
     · apply PSafe.bind
-      apply expect_safe hz hi2'
+      apply expect_safe hz hi2' (by decide)
       intro tok st3 hi3 hs3 _ _ hm3 _
       split
       · apply PSafe.bind
-        apply expect_safe hz hi3
+        apply expect_safe hz hi3 (by decide)
         intro c st4 hi4 hs4 _ _ hm4 _
         apply (ih.parseMapItems _ _ st4 hi4 (by omega)).mono
         intro r st5 ⟨hi5, hm5⟩
@@ -390,13 +381,13 @@ theorem parseMapItems_ok {fuel : Nat} (ih : ExprSpecs pf AP EL S fuel) (key : By
 
 theorem parseTernary_ok {fuel : Nat} (ih : ExprSpecs pf AP EL S fuel) (cond : Expr) (st : PState)
     (hi : Inv EL S st) (hf : 8 * mu st + 12 ≤ fuel + 1) :
-    PSafe AP S (Parser.parseTernary pf (fuel + 1) cond) st (EPost EL S st 0) := by
+    PSafe AP EL S (Parser.parseTernary pf (fuel + 1) cond) st (EPost EL S st 0) := by
   unfold Parser.parseTernary
   apply PSafe.bind
   apply (ih.parseExpr _ st hi (by omega)).mono
   intro n1 st1 ⟨hi1, hm1⟩
   apply PSafe.bind
-  apply expect_safe hz hi1
+  apply expect_safe hz hi1 (by decide)
   intro c st2 hi2 hs2 _ _ hm2 _
   apply PSafe.bind
   apply (ih.parseExpr _ st2 hi2 (by omega)).mono
@@ -404,16 +395,16 @@ theorem parseTernary_ok {fuel : Nat} (ih : ExprSpecs pf AP EL S fuel) (cond : Ex
   exact PSafe.pure ⟨hi3, by omega⟩
 
 theorem newGlobalNode_ok {fuel : Nat} (ih : ExprSpecs pf AP EL S fuel) (pos : Nat) (name : Bytes) (nxt : Item)
-    (st : PState) (hs : S nxt) (hi : Inv EL S st) (hpc : st.peekCount ≤ 1) (ht : top st = nxt)
+    (st : PState) (hs : S nxt) (hi : InvW EL S st) (hpc : st.peekCount ≤ 1) (ht : top st = nxt)
     (hf : 8 * (mu st + real nxt) + 8 ≤ fuel + 1) :
-    PSafe AP S (Parser.newGlobalNode pf (fuel + 1) pos name nxt) st
+    PSafe AP EL S (Parser.newGlobalNode pf (fuel + 1) pos name nxt) st
       (fun _ st' => Inv EL S st' ∧ mu st' ≤ mu st + real nxt) := by
   unfold Parser.newGlobalNode
   split
   · rename_i hd
     have hr := real_of_beq hd (by decide)
     apply PSafe.bind
-    apply next_safe hz hi
+    apply next_safe hz (upw% hi)
     intro n2 st1 hi1 hs1 hpc1 ht1 hm1 _
     apply (ih.newGlobalNode _ _ n2 st1 hs1 hi1 (by omega) ht1 (by have := real_le n2; omega)).mono
     intro e st2 ⟨hi2, hm2⟩
@@ -425,16 +416,18 @@ theorem newGlobalNode_ok {fuel : Nat} (ih : ExprSpecs pf AP EL S fuel) (pos : Na
 
 theorem newFunctionNode_ok {fuel : Nat} (ih : ExprSpecs pf AP EL S fuel) (tok : Item) (st : PState)
     (hi : Inv EL S st) (hf : 8 * mu st + 13 ≤ fuel + 1) :
-    PSafe AP S (Parser.newFunctionNode pf (fuel + 1) tok) st (EPost EL S st 0) := by
+    PSafe AP EL S (Parser.newFunctionNode pf (fuel + 1) tok) st (EPost EL S st 0) := by
   unfold Parser.newFunctionNode
   apply PSafe.bind
   apply peek_safe hz hi
   intro pk st1 hi1 hs1 hm1 hd1 _
   split
-  · apply PSafe.bind
+  · rename_i hb
+    apply PSafe.bind
     apply next_safe hz hi1
-    intro t st2 hi2 _ _ _ hm2 _
-    exact PSafe.pure ⟨hi2, by omega⟩
+    intro t st2 hi2 _ _ ht2 hm2 he2
+    have hr : real t = 1 := by rw [he2 pk hd1]; exact real_of_beq hb (by decide)
+    exact PSafe.pure ⟨(upw% hi2), by omega⟩
   · apply PSafe.bind
     apply (ih.parseFuncArgs st1 hi1 (by omega)).mono
     intro args st2 ⟨hi2, hm2⟩
@@ -442,7 +435,7 @@ theorem newFunctionNode_ok {fuel : Nat} (ih : ExprSpecs pf AP EL S fuel) (tok : 
 
 theorem parseFuncArgs_ok {fuel : Nat} (ih : ExprSpecs pf AP EL S fuel) (st : PState)
     (hi : Inv EL S st) (hf : 8 * mu st + 12 ≤ fuel + 1) :
-    PSafe AP S (Parser.parseFuncArgs pf (fuel + 1)) st (EPost EL S st 0) := by
+    PSafe AP EL S (Parser.parseFuncArgs pf (fuel + 1)) st (EPost EL S st 0) := by
   unfold Parser.parseFuncArgs
   apply PSafe.bind
   apply (ih.parseExpr _ st hi (by omega)).mono
@@ -453,11 +446,11 @@ theorem parseFuncArgs_ok {fuel : Nat} (ih : ExprSpecs pf AP EL S fuel) (st : PSt
   try dsimp only
   split
   · apply PSafe.bind
-    apply (ih.parseFuncArgs st2 hi2 (by omega)).mono
+    apply (ih.parseFuncArgs st2 (upw% hi2) (by omega)).mono
     intro r st3 ⟨hi3, hm3⟩
     exact PSafe.pure ⟨hi3, by omega⟩
   split
-  · exact PSafe.pure ⟨hi2, by omega⟩
+  · exact PSafe.pure ⟨(upw% hi2), by omega⟩
   · exact unexpected_safe hi2 hs2
 
 /-- every expression function meets its specification at every fuel level -/
